@@ -341,6 +341,7 @@ pub fn run_plan<P: Probe>(plan: &ProbePlan) -> ProbeOutcome {
         drop(arena);
     }
     let _ = seam::drain_events();
+    seam::end_run();
     ProbeOutcome { plan: plan.clone(), violation, nontrivial, signature: sig }
 }
 
